@@ -18,3 +18,6 @@ CONSTANTS
   SAMPLE = 29
   STREAMLEN = 0
   TWOCOLOURS = FALSE
+  RING = 1
+  FILTERED = TRUE
+  STOREORIENT = TRUE
